@@ -126,6 +126,11 @@ int main(void) {
   __CPROVER_assume(dest < NS);
   budget = CB_BUDGET; which = 0; IMMA(KIND)(&ia, dest);
   budget = CB_BUDGET; which = 1; IMMB(KIND)(&ib, dest);
+#elif ENTRY == 20
+  /* update() without its final processRequest() (both sides have plans): the update phases and the plan executor run,
+     the requests they issue are compared in the queue */
+  budget = CB_BUDGET; which = 0; A_vf_update_plans_only(&ia);
+  budget = CB_BUDGET; which = 1; B_vf_update_plans_only(&ib);
 #elif ENTRY == 4
   which = 0; A_vf_reset(&ia); which = 1; B_vf_reset(&ib);
 #else
@@ -138,6 +143,10 @@ int main(void) {
   for (int c = 0; c < NC; c++) __CPROVER_assert(aa[c] == ab[c] && ra[c] == rb[c], "C15 both configurations end in the same configuration");
   for (int s = 0; s < NS; s++) __CPROVER_assert(A_vf_is_active(&ia, s) == B_vf_is_active(&ib, s) && A_vf_is_resumable(&ia, s) == B_vf_is_resumable(&ib, s), "C15 both configurations report the same active/resumable states");
   __CPROVER_assert(A_vf_requests_count(&ia) == B_vf_requests_count(&ib), "C15 both configurations leave the same queue");
+#if ENTRY == 20
+  for (unsigned i = 0; i < NC; i++) if (i < A_vf_requests_count(&ia) && i < B_vf_requests_count(&ib))
+    __CPROVER_assert(A_vf_request_dest(&ia, i) == B_vf_request_dest(&ib, i) && A_vf_request_type(&ia, i) == B_vf_request_type(&ib, i) && A_vf_request_origin(&ia, i) == B_vf_request_origin(&ib, i), "C15 both configurations issue the same plan transitions in the same order");
+#endif
 #ifdef WITH_PLAN
   __CPROVER_assert(A_vf_plan_len(&ia, 0) == B_vf_plan_len(&ib, 0) && A_vf_task_count(&ia) == B_vf_task_count(&ib), "C15 both configurations hold the same plan afterwards");
   for (int s = 0; s < NS; s++) __CPROVER_assert(A_vf_task_success(&ia, s) == B_vf_task_success(&ib, s), "C15 both configurations hold the same task marks afterwards");
